@@ -12,6 +12,8 @@ import (
 	"strings"
 
 	"mcrt"
+
+	"github.com/vbauerster/mpb/v8/decor"
 )
 
 // X is the observation record of one execution.
@@ -28,6 +30,8 @@ type X struct {
 	evNames      []string
 	evCounts     []int
 	Notes        []string
+	sharedWC     [4]decor.WC
+	sharedInit   [4]bool
 	WaitStep     int // step at which Progress.Wait returned (0 = did not)
 	WritesAtWait int
 	ShutAtWait   []int // listener notification counts at the moment Wait returned
@@ -201,7 +205,8 @@ var (
 	reUp  = regexp.MustCompile(`^\x1b\[(\d+)A\x1b\[J`)
 	reBar = regexp.MustCompile(`\[b(\d+) (-?\d+)/(-?\d+) ([RCA]+)\]`)
 	reExt = regexp.MustCompile(`\[x(\d+)\.(\d+)\]`)
-	reDec = regexp.MustCompile(`^d(\d+)[pa]\d`) // a row whose body was squeezed out still starts with its decorator
+	reDec = regexp.MustCompile(`^d(\d+)[pa]\d`)  // a row whose body was squeezed out still starts with its decorator
+	reSGR = regexp.MustCompile(`\x1b\[[0-9;]*m`) // colour sequences added by Meta wrappers
 )
 
 func ParseFrame(w OutWrite) Frame {
@@ -221,6 +226,7 @@ func ParseFrame(w OutWrite) Frame {
 	}
 	seenRow := false
 	for _, ln := range lines {
+		ln = reSGR.ReplaceAllString(ln, "")
 		if m := reBar.FindStringSubmatch(ln); m != nil {
 			b, _ := strconv.Atoi(m[1])
 			c, _ := strconv.ParseInt(m[2], 10, 64)
